@@ -244,6 +244,8 @@ class Library:
         b['__import__'] = self._import
         b['isinstance'] = core.vf_isinstance
         b['print'] = _print
+        b['min'] = core.vf_min
+        b['max'] = core.vf_max
         m.__dict__['__builtins__'] = b
         m.__dict__['_vf_R'] = lambda s: R(Fr(s))
         m.__dict__['_vf_C'] = lambda re, im: C(R(Fr(re)), R(Fr(im)))
